@@ -150,9 +150,9 @@ def rem (a : Int) (p : Nat) (b : Int) (q : Nat) : Exp :=
     let A := a * (10 : Int) ^ (m - p)
     let B := b * (10 : Int) ^ (m - q)
     let r := A.tmod B
-    -- `y` one: the implementation returns `fract x`, which has x's scale (zero scale for p = 0)
-    let (r, m) := if isOne b q then (if p = 0 then (0, 0) else (r, p)) else (r, m)
-    if p < q ∧ !fits A then .valOrOvf r m else .val r m
+    -- a divisor equal to one: the fractional part of `x`, in x's own scale
+    if isOne b q then (if p = 0 then .val 0 0 else .val (a.tmod ((10 : Int) ^ p)) p)
+    else if p < q ∧ !fits A then .valOrOvf r m else .val r m
 
 /-! ### C08 -/
 def cmp (a : Int) (p : Nat) (b : Int) (q : Nat) : Ordering :=
